@@ -11,7 +11,7 @@ shape with `ReadInstance` in the place of `CreateInstance`) on the stream model 
 
 What the registry / instance manager decide (is the keyword a known entity, is the id already taken, does the external
 mapping name a legal combination) enters as an *oracle* `Oracle`; the reading of an external mapping's parts
-(`CreateSubSuperInstance`) enters as a function `sub` of which the theorems only assume that it never un-reads.
+(`CreateSubSuperInstance` with `SkipSimpleRecord`, `PushPastImbedAggr`, `PushPastString`) is modelled (`createSubSuper`).
 Not modelled: the `&SCOPE` branch (`CreateScopeInstances`, which re-enters `CreateInstance`) — files without `&SCOPE` are
 the domain of the theorems (`_partial`).  Working-session state letters are modelled (`headStage`). -/
 namespace StepModel.P21Safe
@@ -64,6 +64,144 @@ def readStdKeyword (s : IS) : IS × List Byte :=
   | (pre, rest, acc, some c) => (({ s with pre := pre, rest := rest } : IS).putback c, acc.reverse)
   | (pre, _, acc, none) => ({ s with pre := pre, rest := [], eof := false, fail := true }, acc.reverse)
 
+/-! ### the parts of an external mapping: `CreateSubSuperInstance`, `SkipSimpleRecord`, `PushPastImbedAggr`, `PushPastString`
+
+`bad` is `err->severity() <= SEVERITY_INPUT_ERROR` of the `ErrorDescriptor err` that `CreateSubSuperInstance` shares over
+all parts (it is never cleared): once a part's record was not closed, every later `SkipSimpleRecord` reads one character
+and stops. -/
+
+/-- does `GetLiteralStr` report "Missing closing quote" (`allDelimsEscaped` at the end) on this stream? -/
+def litUnclosed (s : IS) : Bool :=
+  let s := s.ws
+  if !s.good then false else
+  match s.rest with
+  | c :: r => if c = chQuote then (litLoop r [c] true).2.2.2 else false
+  | [] => false
+
+/-- one iteration of `while( in.good() )` in `PushPastImbedAggr`; returns stream, depth still open, `bad`, steps -/
+def aggrStep (rec : IS → Byte → Nat → Bool → Nat → Out (IS × Nat × Bool × Nat)) (s : IS) (c : Byte) (depth : Nat) (bad : Bool)
+    (steps : Nat) : Out (IS × Nat × Bool × Nat) :=
+  if !s.good then .ok (s, depth, bad, steps) else
+  if c = chLParen then
+    rec (s.get).1 ((s.get).2.getD c) (depth + 1) bad (steps + 1)
+  else if c = chQuote then
+    let p := s.putback c
+    let s1 := (getLiteralStr p).1
+    rec (s1.get).1 ((s1.get).2.getD c) depth (bad || litUnclosed p) (steps + 1 + (getLiteralStr p).2.length)
+  else if c = chRParen then
+    if depth - 1 = 0 then .ok (s, 0, bad, steps + 1)
+    else rec (s.get).1 ((s.get).2.getD c) (depth - 1) bad (steps + 1)
+  else rec (s.get).1 ((s.get).2.getD c) depth bad (steps + 1)
+
+def aggrLoop : Nat → IS → Byte → Nat → Bool → Nat → Out (IS × Nat × Bool × Nat)
+  | 0 => fun _ _ _ _ _ => .outOfFuel
+  | fuel + 1 => aggrStep (aggrLoop fuel)
+
+/-- `PushPastImbedAggr`: stream, `bad`, steps -/
+def pushPastImbedAggr (fuel : Nat) (s : IS) (bad : Bool) (steps : Nat) : Out (IS × Bool × Nat) :=
+  let s0 := s.ws
+  match s0.get with
+  | (s1, some c) =>
+    if c = chLParen then
+      match aggrLoop fuel (s1.get).1 ((s1.get).2.getD c) 1 bad (steps + 1) with
+      | .ok (s2, depth, bad2, st) => .ok (s2, bad2 || decide (depth > 0), st)
+      | .overflow i k => .overflow i k
+      | .outOfFuel => .outOfFuel
+    else .ok (s1, bad, steps)
+  | (s1, none) => .ok (s1, bad, steps)
+
+/-- one iteration of `while( in.get( c ) && ( c != ')' ) && ( err->severity() > SEVERITY_INPUT_ERROR ) )` -/
+def recordStep (rec : IS → Bool → Nat → Out (IS × Bool × Nat)) (aggr : IS → Bool → Nat → Out (IS × Bool × Nat))
+    (s : IS) (bad : Bool) (steps : Nat) : Out (IS × Bool × Nat) :=
+  match s.get with
+  | (s1, none) => .ok (s1, bad, steps + 1)
+  | (s1, some c) =>
+    if c = chRParen || bad then .ok (s1, bad, steps + 1)
+    else if c = chQuote then
+      let p := s1.putback c
+      rec (getLiteralStr p).1 (bad || litUnclosed p) (steps + 1 + (getLiteralStr p).2.length)
+    else if c = chLParen then
+      match aggr (s1.putback c) bad (steps + 1) with
+      | .ok (s2, bad2, st) => rec s2 bad2 st
+      | .overflow i k => .overflow i k
+      | .outOfFuel => .outOfFuel
+    else rec s1 bad (steps + 1)
+
+def recordLoop (aggr : IS → Bool → Nat → Out (IS × Bool × Nat)) : Nat → IS → Bool → Nat → Out (IS × Bool × Nat)
+  | 0 => fun _ _ _ => .outOfFuel
+  | fuel + 1 => recordStep (recordLoop aggr fuel) aggr
+
+/-- `SkipSimpleRecord` -/
+def skipSimpleRecord (fuel : Nat) (s : IS) (bad : Bool) (steps : Nat) : Out (IS × Bool × Nat) :=
+  let s0 := s.ws
+  match s0.get with
+  | (s1, some c) =>
+    if c = chLParen then
+      match recordLoop (pushPastImbedAggr fuel) fuel s1 bad steps with
+      | .ok (s2, bad2, st) => .ok (s2, bad2 || !s2.good, st)
+      | .overflow i k => .overflow i k
+      | .outOfFuel => .outOfFuel
+    else .ok (s1.putback c, bad, steps)
+  | (s1, none) => .ok (s1.putback 0, bad, steps)
+
+/-- `while( in.good() && ( c != ')' ) && !isalpha( c ) ) { in >> c; c = in.peek(); }` — `c?` is what the last `peek`
+returned (none: end of input); returns the stream, the last peek and the steps -/
+def garbageStep (rec : IS → Option Byte → Nat → Out (IS × Option Byte × Nat)) (s : IS) (c? : Option Byte) (steps : Nat) :
+    Out (IS × Option Byte × Nat) :=
+  match c? with
+  | some c =>
+    if s.good && c ≠ chRParen && !isAlpha c then
+      rec ((s.extract).1.peek).1 ((s.extract).1.peek).2 (steps + 1)
+    else .ok (s, c?, steps)
+  | none => .ok (s, none, steps)
+
+def garbageLoop : Nat → IS → Option Byte → Nat → Out (IS × Option Byte × Nat)
+  | 0 => fun _ _ _ => .outOfFuel
+  | fuel + 1 => garbageStep (garbageLoop fuel)
+
+/-- `enaIndex < guard` (no guard: always) -/
+def underGuard : Option Nat → Nat → Bool
+  | some g, idx => decide (idx < g)
+  | none, _ => true
+
+/-- one iteration of the part loop `while( in.good() && ( c != ')' ) && ( enaIndex < guard ) )`; `c?` is the last
+`c = in.peek()`.  Returns stream, number of part names, steps. -/
+def partStep (rec : IS → Option Byte → Nat → Bool → Nat → Out (IS × Nat × Nat)) (record : IS → Bool → Nat → Out (IS × Bool × Nat))
+    (garbage : IS → Option Byte → Nat → Out (IS × Option Byte × Nat)) (guard : Option Nat)
+    (s : IS) (c? : Option Byte) (idx : Nat) (bad : Bool) (steps : Nat) : Out (IS × Nat × Nat) :=
+  match c? with
+  | some c =>
+    if s.good && c ≠ chRParen && underGuard guard idx then
+      let kw := readStdKeyword s
+      let cont (s2 : IS) (idx2 : Nat) (bad2 : Bool) (st : Nat) : Out (IS × Nat × Nat) :=
+        match garbage (s2.ws.peek).1 (s2.ws.peek).2 st with
+        | .ok (s3, c3?, st3) => rec s3 c3? idx2 bad2 st3
+        | .overflow i k => .overflow i k
+        | .outOfFuel => .outOfFuel
+      if kw.2.isEmpty then cont kw.1 idx bad (steps + 1)
+      else
+        match record kw.1 bad (steps + 1 + kw.2.length) with
+        | .ok (s2, bad2, st) => cont s2 (idx + 1) bad2 st
+        | .overflow i k => .overflow i k
+        | .outOfFuel => .outOfFuel
+    else .ok (s, idx, steps)
+  | none => .ok (s, idx, steps)
+
+def partLoop (record : IS → Bool → Nat → Out (IS × Bool × Nat)) (garbage : IS → Option Byte → Nat → Out (IS × Option Byte × Nat))
+    (guard : Option Nat) : Nat → IS → Option Byte → Nat → Bool → Nat → Out (IS × Nat × Nat)
+  | 0 => fun _ _ _ _ _ => .outOfFuel
+  | fuel + 1 => partStep (partLoop record garbage guard fuel) record garbage guard
+
+/-- `CreateSubSuperInstance` as far as the stream is concerned: `in >> ws; in.get( c ); c = in.peek();` then the part
+loop.  `sev` carries the number of part names collected.  (The part loop may make one iteration that consumes nothing —
+a first character that is neither a letter nor `)` — so it is given `2·fuel`.) -/
+def createSubSuper (guard : Option Nat) (fuel : Nat) (s : IS) : Out LoopRes :=
+  let s1 := (s.ws.get).1
+  match partLoop (skipSimpleRecord fuel) (garbageLoop fuel) guard (2 * fuel) (s1.peek).1 (s1.peek).2 0 false 1 with
+  | .ok (s2, n, st) => .ok ⟨s2, n, 0, st⟩
+  | .overflow i k => .overflow i k
+  | .outOfFuel => .outOfFuel
+
 /-- an error path of `CreateInstance`: `SkipInstance( in, tmpbuf ); return ENTITY_NULL;` -/
 def ciFail (skip : IS → Out LoopRes) (s : IS) (st : Nat) : Out LoopRes :=
   match skip s with
@@ -82,19 +220,23 @@ def ciDone (tok skip : IS → Out LoopRes) (s : IS) (st : Nat) : Out LoopRes :=
   | .overflow i k => .overflow i k
   | .outOfFuel => .outOfFuel
 
-/-- the record after `=`: external mapping (`sub` reads its parts), user-defined (`!`) or keyword -/
-def ciRecord (o : Oracle) (sub : IS → IS) (tok skip : IS → Out LoopRes) (s : IS) (st : Nat) : Out LoopRes :=
+/-- the record after `=`: external mapping (`sub` = `CreateSubSuperInstance` reads its parts), user-defined (`!`) or keyword -/
+def ciRecord (o : Oracle) (sub tok skip : IS → Out LoopRes) (s : IS) (st : Nat) : Out LoopRes :=
   match s.peek with
   | (s3, p) =>
     if p = some chLParen then
-      if o.complexOk (sub s3) then ciDone tok skip (sub s3) st else ciFail skip (sub s3) st
+      match sub s3 with
+      | .ok rs =>
+        if o.complexOk rs.s then ciDone tok skip rs.s (st + rs.steps) else ciFail skip rs.s (st + rs.steps)
+      | .overflow i k => .overflow i k
+      | .outOfFuel => .outOfFuel
     else if p = some chBang then
       ciFail skip (readStdKeyword (s3.get).1).1 (st + (readStdKeyword (s3.get).1).2.length)
     else if o.known (readStdKeyword s3).2 then ciDone tok skip (readStdKeyword s3).1 (st + (readStdKeyword s3).2.length)
     else ciFail skip (readStdKeyword s3).1 (st + (readStdKeyword s3).2.length)
 
 /-- `STEPfile::CreateInstance` after the `#`: `sev` = 1 when an instance is returned -/
-def createInstanceSkel (o : Oracle) (sub : IS → IS) (tok skip : IS → Out LoopRes) (s : IS) : Out LoopRes :=
+def createInstanceSkel (o : Oracle) (sub tok skip : IS → Out LoopRes) (s : IS) : Out LoopRes :=
   match tok s with
   | .ok r0 =>
     if o.dup r0.s.extractInt then ciFail skip r0.s.extractInt (r0.steps + 1) else
@@ -210,11 +352,12 @@ def instOrSkip (rd skip : IS → Out LoopRes) (del : Bool) (s : IS) : Out LoopRe
   else rd s
 
 /-- `ReadData1`: `endsec = FoundEndSecKywd( in )` first, then the loop.  `wsMode`: working-session file. -/
-def readData1 (o : Oracle) (sub : IS → IS) (cm wsMode : Bool) (iters maxErr fuel : Nat) (s : IS) : Out DataRes :=
+def readData1 (o : Oracle) (guard : Option Nat) (cm wsMode : Bool) (iters maxErr fuel : Nat) (s : IS) : Out DataRes :=
   let tok := readTokenSeparator cm iters fuel
   let skip := skipInstance cm iters fuel
   let (s0, e) := foundEndSecKywd s
-  dataLoop (recoverLoop (findStartOfInstance fuel) tok fuel) (instOrSkip (createInstanceSkel o sub tok skip) skip) tok wsMode false
+  dataLoop (recoverLoop (findStartOfInstance fuel) tok fuel)
+    (instOrSkip (createInstanceSkel o (createSubSuper guard fuel) tok skip) skip) tok wsMode false
     maxErr fuel s0 e 0 false 0 0 0
 
 /-- `ReadData2`: the same loop with `ReadInstance` (`ri`: any per-instance reader) in the place of `CreateInstance` -/
